@@ -4,6 +4,7 @@ import EgVerif.Gen.FactsC18
 import EgVerif.Proofs.AdminAPIIR
 import EgVerif.Proofs.ClusterMutexIR
 import EgVerif.Proofs.ClusterMutexLease
+import EgVerif.Proofs.AdminUnderMutex
 /-!
 # C18 — the cluster mutex is exclusive; admin mutations serialize with gap-free versions
 
@@ -690,5 +691,87 @@ example : (Gen.FactsC18IR.createObjectIR ⟨[], 7⟩ ⟨"a", oA⟩ false) =
     ⟨⟨[("a", oA)], 8⟩, ⟨true, 201, some 8⟩, false, false⟩ := by decide
 example : (Gen.FactsC18IR.updateObjectIR ⟨[("a", oA)], 8⟩ ⟨"a", oB⟩ false).rw.resp = ⟨400, none⟩ := by decide
 example : (Gen.FactsC18IR.deleteObjectIR ⟨[("a", oA)], 8⟩ "a") = ⟨⟨[], 9⟩, ⟨false, 200, some 9⟩, false, false⟩ := by decide
+
+/-! ## Audit repair (notes/AUDIT.md, C18 item 2; engineer mux)
+
+1. `OneObjectPerSession` was weakened (in `Proofs/ClusterMutex.lean`) to what the proofs use — two threads
+   whose objects live on the same session use the same object — so that every theorem above is now
+   instantiable at the configuration the judge replays (`sess o = o / 8`).
+2. "Consequently concurrent admin mutations are serialized" is **derived**: `Proofs/AdminUnderMutex.lean`
+   builds the product of the mutex model with the handlers' etcd round trips (`.critical t` carries one
+   `AdminAPI.micro`; no lock guard of its own) and proves that it projects to `Sys.run`; the guard
+   `holder = none` of `Sys.acquire` is discharged by the mutex invariant. -/
+
+/-- The judge's configuration (`Driver/C18.lean`, single object per member: thread `g` of member `ms[g]`
+uses object `ms[g] * 8`, created on session `object / 8`) satisfies `OneObjectPerSession` … -/
+def judgeCfg (ms : List Nat) : Cfg :=
+  { obj := fun g => match ms[g]? with | some m => m * 8 | none => 0, sess := fun o => o / 8 }
+
+theorem one_object_per_session_judgeCfg (ms : List Nat) : OneObjectPerSession (judgeCfg ms) := by
+  intro t1 t2 h
+  simp only [judgeCfg] at h ⊢
+  cases h1 : ms[t1]? <;> cases h2 : ms[t2]? <;> simp only [h1, h2] at h ⊢ <;> omega
+
+/-- … whereas the former formulation (`sess` injective on all objects) does not hold of it: objects 0 and 1
+are on the same session. So `exclusive` could not be instantiated at any replayed configuration before. -/
+example : ¬ (∀ o1 o2, (judgeCfg [0, 1, 2]).sess o1 = (judgeCfg [0, 1, 2]).sess o2 → o1 = o2) := by
+  intro h; have := h 0 1 (by decide); omega
+
+/-- `exclusive` at the judge's configuration. -/
+theorem exclusive_judgeCfg (ms : List Nat) {s : State} (hr : Reachable (judgeCfg ms) s) (t1 t2 : Nat)
+    (a : s.pc t1 = .crit) (b : s.pc t2 = .crit) : t1 = t2 :=
+  exclusive (one_object_per_session_judgeCfg ms) hr t1 t2 a b
+
+open EgVerif.AdminUnderMutex in
+/-- **Every interleaving of the real lock protocol with the handlers is an interleaving of the abstract
+system.** For every configuration with one mutex object per session and every schedule of the product —
+local locks, enqueues, grants, time-outs, early errors, handler round trips inside the critical section,
+unlocks, unlocked reads, of any number of goroutines on any members — the projected schedule is enabled in
+`Sys` (in particular every `acquire` finds `holder = none`) and ends in a state with the same etcd, handler
+states and log, whose holder is the thread in the mutex model's critical section. -/
+theorem product_projects_to_sys {c : Cfg} (h1 : OneObjectPerSession c) (e0 : Etcd) (as : List PAct)
+    (p : PState) (h : AdminUnderMutex.run c (PState.init e0) as = some p) :
+    ∃ s, Sys.run (Sys.init e0) (as.flatMap AdminUnderMutex.proj) = some s ∧ s.etcd = p.etcd ∧ s.cur = p.cur ∧ s.log = p.log ∧
+      ∀ t, s.holder = some t ↔ p.mx.pc t = .crit := by
+  obtain ⟨s, hs, r⟩ := run_projects h1 as _ p _ (R_init c e0) h
+  exact ⟨s, hs, r.etcd, r.cur, r.log, r.hold⟩
+
+open EgVerif.AdminUnderMutex in
+/-- **Concurrent admin mutations are serialized — derived from the mutex** (`handlers_atomic` composed with
+the projection): under the real lock protocol the log of finished mutations is a sequential execution of
+`apply` in unlock order with the same responses; successful mutations carry the versions `v+1, …, v+k`,
+distinct and gap-free; and whenever no goroutine is in the critical section, store and version are exactly
+the result of that sequential execution. -/
+theorem admin_mutations_serialized_under_mutex {c : Cfg} (h1 : OneObjectPerSession c) (e0 : Etcd)
+    (as : List PAct) (p : PState) (h : AdminUnderMutex.run c (PState.init e0) as = some p) :
+    (runSeq e0 (p.log.map Prod.fst)).2 = p.log.map Prod.snd ∧
+    (p.log.map Prod.snd).filterMap (·.version) =
+      List.range' (e0.version + 1) ((p.log.map Prod.snd).filter Resp.ok).length ∧
+    ((∀ t, p.mx.pc t ≠ .crit) → p.etcd = (runSeq e0 (p.log.map Prod.fst)).1) := by
+  obtain ⟨s, hs, he, _, hl, hh⟩ := product_projects_to_sys h1 e0 as p h
+  obtain ⟨ha1, ha2⟩ := handlers_atomic e0 _ s hs
+  rw [hl] at ha1 ha2
+  refine ⟨ha1, ?_, fun hfree => ?_⟩
+  · rw [← ha1]; exact (versions_gap_free e0 _).1
+  · rw [← he]
+    apply ha2
+    cases hh' : s.holder with
+    | none => rfl
+    | some t => exact absurd ((hh t).mp hh') (hfree t)
+
+/-- Non-vacuity: members 0 and 1 (judge configuration). Goroutine 0 gets the lock and creates `a`; goroutine 1
+enqueues meanwhile and is **not** granted while 0 is inside (the grant is not enabled); after 0's unlock it is
+granted and its create of the same name is answered 409. The log is the sequential execution. -/
+private def prodRun : List AdminUnderMutex.PAct :=
+  [.lock (.localLock 0), .lock (.etcdEnqueue 0), .lock (.localLock 1), .lock (.etcdEnqueue 1),
+   .granted 0 (.create "a" oA), .micro 0, .micro 0, .read 1, .micro 0, .micro 0, .unlock 0, .lock (.localUnlock 0),
+   .granted 1 (.create "a" oB), .micro 1, .micro 1, .unlock 1, .lock (.localUnlock 1)]
+
+example : (AdminUnderMutex.run (judgeCfg [0, 1]) (AdminUnderMutex.PState.init ⟨[], 7⟩) prodRun).map
+    (fun p => (p.log, p.etcd)) =
+    some ([(.create "a" oA, ⟨201, some 8⟩), (.create "a" oB, ⟨409, none⟩)], ⟨[("a", oA)], 8⟩) := by decide
+/-- the grant to goroutine 1 is not enabled while goroutine 0 is in the critical section -/
+example : (AdminUnderMutex.run (judgeCfg [0, 1]) (AdminUnderMutex.PState.init ⟨[], 7⟩)
+    (prodRun.take 6 ++ [.granted 1 (.create "a" oB)])).isNone = true := by decide
 
 end EgVerif.C18
